@@ -103,7 +103,7 @@ def massSizeFilter (minmass : Rat) (maxsize : Option Rat) (l : List Feat) : List
 
 /-! ## 4. topn -/
 
-/-- stable insertion sort, ascending mass (stands for `np.argsort(mass)`; numpy's default sort is
+/-- insertion sort (among rows of equal mass the FIRST comes out last; the theorems and the harness are "up to ties"), ascending mass (stands for `np.argsort(mass)`; numpy's default sort is
 not stable, so on tied masses the code may return a different permutation of the tied rows: the
 theorems about `topnSel` are stated up to that choice) -/
 def insertByMass (r : Feat) : List Feat → List Feat
